@@ -16,7 +16,7 @@
 (* Part 2 - transcriptions (Impl) of the operations with non-trivial index     *)
 (* manipulation: _reix / restrict (mesh.py:1111-1203), remove_elements         *)
 (* (1205-1218), __add__ / _remove_duplicate_nodes (659-664, 700-708),          *)
-(* remove_unused_nodes / remove_duplicate_nodes (1220-1235), to_meshtri        *)
+(* remove_unused_nodes / remove_duplicate_nodes (1220-1259), to_meshtri        *)
 (* (mesh_quad_1.py:135-211), to_meshtet (mesh_hex_1.py:157-168,                *)
 (* mesh_wedge_1.py:37-46).                                                     *)
 EXTENDS Tags, Geometry, MC_Universe
@@ -238,15 +238,6 @@ RemovedEntitiesUntagged(e) ==
   /\ e.op \in CarryingOps =>
        /\ \A n \in SubNames(Post(e)) : n \in SubNames(Pre(e)) /\ SubDesig(Post(e), n) \subseteq ExpectedSub(e, n)
        /\ \A n \in BndNames(Post(e)) : n \in BndNames(Pre(e)) /\ BndDesig(Post(e), n) \subseteq ExpectedBnd(e, n)
-\* named deviation (finding #15): remove_duplicate_nodes renumbers the vertices (hence the facets) but keeps the
-\* facet index arrays verbatim, while the sub-domain part is right
-DupKeepsFacetIds(e) ==
-  /\ e.op = "remove_duplicate_nodes" /\ PreTagsOK(e) /\ PostTagsInRange(e)
-  /\ BndNames(Pre(e)) = BndNames(Post(e))
-  /\ \A n \in BndNames(Pre(e)) : BndOf(Pre(e), n).ids = BndOf(Post(e), n).ids
-  /\ \A n \in SubNames(Pre(e)) : ExpectedSub(e, n) = PostSub(e, n)
-  /\ SubNames(Post(e)) = SubNames(Pre(e))
-
 \* ---------------------------------------------------------------------------
 \* IndexMapsRelateNewToOld
 IndexMapsRelateNewToOld(e) ==
@@ -274,10 +265,7 @@ SurgeryClauses(e) ==
   IF e.err # "" THEN [NoUnexpectedError |-> FALSE]
   ELSE IF e.op \in {"refine", "setup"} THEN [NoUnexpectedError |-> TRUE]   \* state change only (C12 judges refinement)
   ELSE IF ~SurgWellFormed(e) THEN [NoUnexpectedError |-> TRUE, WellFormed |-> FALSE]
-  ELSE LET carried == PreTagsOK(e) => CarriedTagsSameDesignation(e)
-           removed == PreTagsOK(e) => RemovedEntitiesUntagged(e)
-           dev15   == ~(carried /\ removed) /\ DupKeepsFacetIds(e)
-           cells   == CellsAreExpectedPointSets(e)
+  ELSE LET cells   == CellsAreExpectedPointSets(e)
            devExt  == ~cells /\ ExtrusionIgnoresLineCells(e)
        IN [ NoUnexpectedError |-> TRUE, WellFormed |-> TRUE,
             Valid |-> Valid(e),
@@ -285,9 +273,8 @@ SurgeryClauses(e) ==
             SameMeasure |-> SameMeasure(e) \/ devExt,
             Deviation_ExtrusionIgnoresLineCells |-> ~devExt,
             SharedVertexStructure |-> SharedVertexStructure(e),
-            CarriedTagsSameDesignation |-> carried \/ dev15,
-            RemovedEntitiesUntagged |-> removed \/ dev15,
-            Deviation_DuplicateRemovalKeepsFacetIds |-> ~dev15,
+            CarriedTagsSameDesignation |-> PreTagsOK(e) => CarriedTagsSameDesignation(e),
+            RemovedEntitiesUntagged |-> PreTagsOK(e) => RemovedEntitiesUntagged(e),
             IndexMapsRelateNewToOld |-> IndexMapsRelateNewToOld(e),
             OrientationPositive |-> OrientationPositive(e),
             OperandsUnchanged |-> OperandsUnchanged(e) ]
@@ -355,8 +342,27 @@ AddImpl(m1, m2) ==
   LET n1 == Len(m1.p)
       r  == RemoveDupImpl(m1.p \o m2.p, m1.t \o [k \in DOMAIN m2.t |-> [i \in DOMAIN m2.t[k] |-> m2.t[k][i] + n1]])
   IN [kind |-> m1.kind, p |-> r.p, t |-> r.t, sub |-> <<>>, bnd |-> <<>>]
-\* mesh.py:1228-1235  remove_duplicate_nodes: replace(self, doflocs=p, t=t) - the tag arrays are kept verbatim
-RemoveDuplicateNodesImpl(tm) ==
+\* mesh.py:1230-1259  remove_duplicate_nodes (as repaired by commit 0832543): p, t as above; the named boundaries
+\* are renumbered with the vertices - facet f becomes the facet of the result whose (sorted) vertices are ixb[facets[f]];
+\* sub-domains are kept (cells keep their order).  c = tables of tm, ConnT(_) computes those of the result.
+\* (0 stands for the KeyError of the dictionary lookup: only possible when a facet collapses)
+RemoveDuplicateNodesImpl(tm, c, ConnT(_)) ==
+  LET r    == RemoveDupImpl(tm.p, tm.t)
+      uniq == r.p
+      ixb(v) == PosIn(uniq, tm.p[v])
+      out  == [tm EXCEPT !.p = r.p, !.t = r.t]
+      c2   == ConnT(out)
+      newf(f) == LET key == {ixb(c.facets[f][q]) : q \in DOMAIN c.facets[f]} IN
+                 IF \E g \in DOMAIN c2.facets : VSet(c2.facets[g]) = key
+                 THEN CHOOSE g \in DOMAIN c2.facets : VSet(c2.facets[g]) = key ELSE 0
+  IN [ tm |-> [out EXCEPT !.bnd = [i \in DOMAIN tm.bnd |->
+                                     [name |-> tm.bnd[i].name,
+                                      ids  |-> [j \in DOMAIN tm.bnd[i].ids |-> newf(tm.bnd[i].ids[j])]]]],
+       c |-> c2 ]
+\* REGRESSION MODEL: remove_duplicate_nodes before commit 0832543 (finding #15) - replace(self, doflocs=p, t=t): the
+\* tag arrays were kept verbatim although the vertices, hence the facets, are renumbered.  MC_C18_dup.cfg must keep
+\* refuting it.
+RemoveDuplicateNodesImplOld(tm) ==
   LET r == RemoveDupImpl(tm.p, tm.t) IN [tm EXCEPT !.p = r.p, !.t = r.t]
 \* mesh.py:1220-1226  remove_unused_nodes
 RemoveUnusedNodesImpl(tm) ==
